@@ -73,6 +73,7 @@ static void vf_inputs(void) { struct vf_in vf_nondet_in; IN = vf_nondet_in; }
 #ifndef VF_ONLY
 #define VF_ONLY 0
 #endif
+#define VF_ON(n) (VF_ONLY == 0 || VF_ONLY == (n))
 #define VF_AP(n, c, msg) do { if (VF_ONLY == 0 || VF_ONLY == (n)) { VF_ASSERT(c, msg); } } while (0)
 
 /* harness-side allocation (never fails, not counted) */
